@@ -122,6 +122,7 @@ class Engine:
         self.assumptions_used = set()
         self.prescribed_hashes = None
         self.prescribe = set()    # names of modelled hashes whose model values are replayed natively
+        self.concrete_default = False   # native mode: invent deterministic values for unnamed inputs
         import os as _os
         self.fork_sites = {} if _os.environ.get('VERIF_FORK_SITES') else None
         self.split_depth = None   # frontier mode: stop every path at this many decisions
@@ -216,6 +217,8 @@ class Engine:
             d = self.prefix[i]
             if d[0] == 'E':
                 raise RuntimeError('non-deterministic scenario: decision kinds differ between runs')
+            if len(d) > 3 and d[3] is not None and d[3] != cond.hash():
+                raise RuntimeError('non-deterministic scenario: a replayed decision has a different condition')
             self.trace.append(d)
             self._push(cond if d[0] else z3.Not(cond))
             self.model = None
@@ -238,17 +241,17 @@ class Engine:
         if t_ok and f_ok:
             if self.fork_sites is not None:
                 self._note_site()
-            self.trace.append([True, True, payload])
+            self.trace.append([True, True, payload, cond.hash()])
             self._push(cond)
             if self._holds_in_model(cond) is not True:
                 self.model = None
             return True
         if t_ok:
-            self.trace.append([True, False, payload])
+            self.trace.append([True, False, payload, cond.hash()])
             self._push(cond)
             return True
         if f_ok:
-            self.trace.append([False, False, payload])
+            self.trace.append([False, False, payload, cond.hash()])
             self._push(ncond)
             return False
         raise Abort('infeasible')
@@ -264,7 +267,7 @@ class Engine:
         raise Abort('unknown', 'decide')
 
     def _split(self):
-        self.frontier.append([[d[0], False] + list(d[2:]) for d in self.trace])
+        self.frontier.append([[d[0], False] + list(d[2:]) for d in self.trace])   # fingerprints kept
         raise Abort('split')
 
     def _note_site(self):
@@ -371,10 +374,21 @@ class Engine:
         self.inputs[name] = (kind, term)
         return term
 
+    def _default(self, name, nbytes):
+        import hashlib
+        out = b''
+        k = 0
+        while len(out) < nbytes:
+            out += hashlib.sha256(f'{name}/{k}'.encode()).digest()
+            k += 1
+        return out[:nbytes]
+
     def fresh_bytes(self, name, n):
         if self.concrete is not None:
             if n == 0:
                 return b''
+            if name not in self.concrete and self.concrete_default:
+                return self._default(name, n)
             v = self.concrete[name]
             return bytes.fromhex(v['bytes'])
         if n == 0:
@@ -384,6 +398,8 @@ class Engine:
 
     def fresh_word(self, name, bits, signed=False):
         if self.concrete is not None:
+            if name not in self.concrete and self.concrete_default:
+                return int.from_bytes(self._default(name, 4), 'big') % (1 << min(bits - 1, 40))
             return int(self.concrete[name])
         t = self._register(name, 'sword' if signed else 'word', z3.BitVec(name, bits))
         return SWord(t, signed)
@@ -416,6 +432,8 @@ class Engine:
     def choice(self, name, n):
         '''A symbolic choice in range(n), decided immediately (returns a native int).'''
         if self.concrete is not None:
+            if name not in self.concrete and self.concrete_default:
+                return 0
             return int(self.concrete[name])
         t = self._register(name, 'int', z3.Int(name))
         self.assume(z3.And(t >= 0, t < n))
@@ -491,7 +509,7 @@ class Engine:
                 break
             d = tr.pop()
             if d[0] == 'E':
-                tr.append(['E', None, d[2] + [d[3]], None])
+                tr.append(['E', None, d[2] + [d[3]], None] + d[4:])
             else:
                 tr.append([not d[0], False] + d[2:])
             self.prefix = [list(x) for x in tr]
@@ -651,6 +669,8 @@ def _enumerate_int2(eng, term, what):
         d = eng.prefix[i]
         if d[0] != 'E':
             raise RuntimeError('non-deterministic scenario: decision kinds differ between runs')
+        if len(d) > 4 and d[4] != term.hash():
+            raise RuntimeError('non-deterministic scenario: a replayed enumeration has a different term')
         if d[3] is not None:
             eng.trace.append(d)
             eng._push(term == _num(term, d[3]))
@@ -687,7 +707,7 @@ def _enumerate_int2(eng, term, what):
     else:
         raise Abort('unknown', 'enumerate')
     eng.model = saved
-    eng.trace.append(['E', more, list(tried), v])
+    eng.trace.append(['E', more, list(tried), v, term.hash()])
     eng._push(term == _num(term, v))
     if eng._holds_in_model(term == _num(term, v)) is not True:
         eng.model = None
